@@ -147,6 +147,54 @@ func c10InitAnnouncesWritten(r *core.Run, rule, rel string) {
 		}
 		return out
 	}
+	// cellsOf: the variables / allocations a map value may denote - parameters of the unit's helpers are
+	// followed to the arguments at the call sites inside the unit, results of its helpers to what they return
+	var cellsOf func(v ssa.Value, d int) []ssa.Value
+	cellsOf = func(v ssa.Value, d int) []ssa.Value {
+		c := cellOf(v)
+		if d > 4 {
+			return []ssa.Value{c}
+		}
+		if prm, ok := c.(*ssa.Parameter); ok {
+			idx := paramIdx(prm)
+			var out []ssa.Value
+			for _, cs := range unitCallers(prm.Parent()) {
+				if idx >= 0 && idx < len(cs.Common().Args) {
+					out = append(out, cellsOf(cs.Common().Args[idx], d+1)...)
+				}
+			}
+			if len(out) > 0 {
+				return out
+			}
+		}
+		var call *ssa.Call
+		idx := 0
+		if ex, ok := c.(*ssa.Extract); ok {
+			call, _ = ex.Tuple.(*ssa.Call)
+			idx = ex.Index
+		} else if cl, ok := c.(*ssa.Call); ok {
+			call = cl
+		}
+		if call != nil {
+			if cal := call.Common().StaticCallee(); cal != nil && seen[cal] {
+				var out []ssa.Value
+				for _, ret := range core.Returns(cal) {
+					if idx < len(ret.Results) {
+						for _, src := range phiSources(ret.Results[idx]) {
+							if k, isC := src.V.(*ssa.Const); isC && k.IsNil() {
+								continue
+							}
+							out = append(out, cellsOf(src.V, d+1)...)
+						}
+					}
+				}
+				if len(out) > 0 {
+					return out
+				}
+			}
+		}
+		return []ssa.Value{c}
+	}
 	// filledAfterWrites: the container (a map variable) is filled only after the entry's value was written
 	filledAfterWrites := func(cell ssa.Value) (bool, string) {
 		good, fills, where := true, 0, ""
@@ -154,7 +202,16 @@ func c10InitAnnouncesWritten(r *core.Run, rule, rel string) {
 			for _, b := range g.Blocks {
 				for _, in := range b.Instrs {
 					mu, ok := in.(*ssa.MapUpdate)
-					if !ok || cellOf(mu.Map) != cell {
+					if !ok {
+						continue
+					}
+					same := false
+					for _, mc := range cellsOf(mu.Map, 0) {
+						if mc == cell {
+							same = true
+						}
+					}
+					if !same {
 						continue
 					}
 					fills++
@@ -195,19 +252,7 @@ func c10InitAnnouncesWritten(r *core.Run, rule, rel string) {
 		if ex, ok := sv.(*ssa.Extract); ok {
 			if nx, ok := ex.Tuple.(*ssa.Next); ok {
 				if rng, ok := nx.Iter.(*ssa.Range); ok {
-					cells := []ssa.Value{cellOf(rng.X)}
-					if prm, ok := cells[0].(*ssa.Parameter); ok {
-						cells = nil
-						idx := paramIdx(prm)
-						for _, c := range unitCallers(prm.Parent()) {
-							if idx >= 0 && idx < len(c.Common().Args) {
-								cells = append(cells, cellOf(c.Common().Args[idx]))
-							}
-						}
-						if len(cells) == 0 {
-							return false, "the announced map is a parameter with no call site in Init"
-						}
-					}
+					cells := cellsOf(rng.X, 0)
 					for _, cell := range cells {
 						if ok, where := filledAfterWrites(cell); !ok {
 							return false, "every entry of a map that is filled (" + where + ") whether or not Init wrote the entry"
